@@ -37,7 +37,10 @@ SPEC = {
              "leading / trailing / inner / only whitespace (space, tab, newline, CRLF, NBSP, ideographic space, NEL, LS, BOM, ZWSP), "
              "NUL and control characters and case variants on every route (assign, default, to_python, load by tree and by every "
              "format measured to carry the text unchanged), each challenged with the exact text and with its stripped / re-cased / "
-             "re-spaced variants. "
+             "re-spaced variants; plus, per algorithm, secrets stored by every route and challenged with the same text plus lone "
+             "surrogates (start, middle, end; high and low; str and bytes routes) which must fail with a ValueError, and the "
+             "(stored, challenge) pairs a replace / surrogateescape / surrogatepass / ascii-ignore error handler would confuse. "
+             "Long deterministic histories are cut into pieces of <= 14 operations, each starting from a fresh configuration. "
              "non-trivial = some operation produced a digest value; distinct = distinct (field, default, stream, history)"),
     "trusted_base": [KERNEL, "Print Assumptions: closed under the global context (no axioms)", TIE, HARNESS,
                      "modelled, not verified: hashlib as a function H with |H a x| = digest_size a (theorems) and as a per-case "
